@@ -6,12 +6,17 @@ import (
 	"os"
 
 	"verif/sq/c01"
+	"verif/sq/msg"
 	"verif/sq/rep"
 	"verif/sq/sqrun"
 )
 
 var checks = map[string]*sqrun.Check{
 	"C01": c01.Check,
+	"C02": msg.C02,
+	"C14": msg.C14,
+	"C15": msg.C15,
+	"C19": msg.C19,
 	"C08": rep.C08,
 	"C09": rep.C09,
 	"C18": rep.C18,
